@@ -1,8 +1,12 @@
 (* Model/ConvAll.v — the registered converters put together: values, keyword
    arguments, dispatch from the registry (Gen.ConvTables.registered_converters)
-   to the per-type models, ConverterFactory.deserialize / serialize. *)
+   to the per-type models, ConverterFactory.deserialize / serialize.
+
+   float: the value carried is the exact decimal reading of the text (fsyn); the
+   binary rounding is CPython's and is outside the model (Model/ConvFloat.v). *)
 From Coq Require Import NArith ZArith List Bool String.
-From XV Require Import Base.Str Gen.ConvTables Model.ConvBool Model.ConvInt Model.ConvBytes Model.ConvFactory.
+From XV Require Import Base.Str Gen.ConvTables Model.ConvBool Model.ConvInt Model.ConvBytes
+  Model.ConvDecimal Model.ConvQName Model.ConvFloat Model.ConvEnum Model.ConvFactory.
 Import ListNotations.
 Open Scope N_scope.
 
@@ -10,35 +14,43 @@ Inductive value :=
 | VInt (z : Z)
 | VBool (b : bool)
 | VStr (s : str)
-| VBytes (k : bytes_kind) (b : list N).
+| VBytes (k : bytes_kind) (b : list N)
+| VDec (d : pydec)
+| VQName (text : str)
+| VFloat (f : fsyn)
+| VEnum (k : nat) (member : nat).
 
 (* **kwargs *)
-Record kwargs := mk_kwargs { kw_format : option str }.
+Record kwargs := mk_kwargs { kw_format : option str; kw_ns_map : option nsmap }.
+
+(* the enumeration classes in scope: TEnum k is the k-th *)
+Definition enum_env := list enum_def.
 
 (* the converter object a registration expression evaluates to, run on a str *)
-Definition run_converter (kw : kwargs) (expr : str) (s : str) : option value :=
+Definition run_converter (kw : kwargs) (env : enum_env) (t : pytype) (expr : str) (s : str) : option value :=
   if str_eqb expr (lit "IntConverter()") then option_map VInt (int_deser s)
   else if str_eqb expr (lit "BoolConverter()") then option_map VBool (bool_deser s)
   else if str_eqb expr (lit "StringConverter()") || str_eqb expr (lit "converter.type_converter(str)")
   then option_map VStr (string_deser s)
   else if str_eqb expr (lit "BytesConverter()") then option_map (VBytes BPlain) (bytes_deser (kw_format kw) s)
+  else if str_eqb expr (lit "DecimalConverter()") then option_map VDec (dec_deser s)
+  else if str_eqb expr (lit "QNameConverter()") then option_map VQName (qname_deser s (kw_ns_map kw))
+  else if str_eqb expr (lit "FloatConverter()") then option_map VFloat (float_syntax s)
+  else if str_eqb expr (lit "EnumConverter()") then
+    match t with
+    | TEnum k => match nth_error env k with
+                 | Some d => option_map (VEnum k) (enum_deser (kw_ns_map kw) d s)
+                 | None => None
+                 end
+    | _ => None                                (* data_type is not an EnumMeta *)
+    end
   else None.
 
-Definition conv (kw : kwargs) (t : pytype) (s : str) : option value :=
+Definition conv (kw : kwargs) (env : enum_env) (t : pytype) (s : str) : option value :=
   match type_converter t with
-  | Some e => run_converter kw e s
+  | Some e => run_converter kw env t e s
   | None => None
   end.
 
-Definition deserialize (kw : kwargs) (s : str) (types : list pytype) : option (pytype * value) :=
-  deserialize_gen (conv kw) s types.
-
-(* ConverterFactory.serialize of a non-list value (value_converter + serialize);
-   None = an exception *)
-Definition serialize (kw : kwargs) (v : value) : option str :=
-  match v with
-  | VInt z => int_ser z
-  | VBool b => Some (bool_ser b)
-  | VStr s => Some (string_ser s)
-  | VBytes k b => bytes_ser k (kw_format kw) b
-  end.
+Definition deserialize (kw : kwargs) (env : enum_env) (s : str) (types : list pytype) : option (pytype * value) :=
+  deserialize_gen (conv kw env) s types.
